@@ -688,7 +688,7 @@ def run_client_default_case(case: dict) -> Outcome:
             raise Violation(
                 "truncation-as-eof",
                 "connection ended without close_notify; a client built with ssl=True (own default context, standard-compatible) "
-                "reported a clean end-of-stream: its default context kept OP_IGNORE_UNEXPECTED_EOF",
+                "reported a clean end-of-stream: its default context kept OP_IGNORE_UNEXPECTED_EOF, or standard-compatible mode is not in effect by default",
                 **detail,
             )
     else:
